@@ -788,3 +788,14 @@ package parse
 //@   ghost lx *lexer = nil
 //@   at call parse.lexExpr#0 after set lx = res
 //@   ensures[scanner-finished;C18] lx != nil && lx.done
+
+// ---------------------------------------------------------------------------
+// C01: operator precedence (checked for the table package init builds; oracle:
+// the Closure Templates reference, highest first: unary - not; * / %; + -;
+// < > <= >=; == !=; and; or; ?: and the ternary).
+//@ inittable[precedence-order;C01] precedence[itemNot] == precedence[itemNegate] && precedence[itemNegate] > precedence[itemMul] && precedence[itemMul] == precedence[itemDiv] && precedence[itemDiv] == precedence[itemMod] && precedence[itemMod] > precedence[itemAdd] && precedence[itemAdd] == precedence[itemSub] && precedence[itemSub] > precedence[itemLt] && precedence[itemLt] == precedence[itemGt] && precedence[itemGt] == precedence[itemLte] && precedence[itemLte] == precedence[itemGte] && precedence[itemGte] > precedence[itemEq] && precedence[itemEq] == precedence[itemNotEq] && precedence[itemNotEq] > precedence[itemAnd] && precedence[itemAnd] > precedence[itemOr] && precedence[itemOr] > precedence[itemElvis] && precedence[itemElvis] == 0
+//@ func init
+//@   props C01
+//@   nosafety
+//@   loop 0
+//@     noterm
